@@ -67,6 +67,9 @@ impl SimDisk {
 
 struct SimFile {
     disk: SimDisk,
+    /// the real file behind the simulated one: accepted bytes are written through, so that file
+    /// operations mahf performs without the seam (rename, remove, reading back) see them
+    real: File,
     path: PathBuf,
     index: u32,
     written: u64,
@@ -109,6 +112,10 @@ impl Write for SimFile {
                 }
                 accept = accept.min(room);
             }
+        }
+        if let Err(e) = self.real.write_all(&buf[..accept]) {
+            eprintln!("harness error: cannot write through to {}: {e}", self.path.display());
+            std::process::exit(2);
         }
         self.disk
             .state
@@ -164,14 +171,30 @@ impl IoHook for SimDisk {
         Ok(())
     }
 
-    fn wrap(&self, path: &Path, _file: File) -> Box<dyn Write> {
+    fn wrap(&self, path: &Path, file: File) -> Box<dyn Write> {
         let index = {
             let mut st = self.state.lock().unwrap();
             st.files.insert(path.to_path_buf(), Vec::new());
             st.creates - 1
         };
-        Box::new(SimFile { disk: self.clone(), path: path.to_path_buf(), index, written: 0, calls: 0 })
+        Box::new(SimFile { disk: self.clone(), real: file, path: path.to_path_buf(), index, written: 0, calls: 0 })
     }
+}
+
+/// The regular files of `folder` on the real file system (name -> content), i.e. what the
+/// simulated disk holds after every hooked and unhooked operation of the code under test.
+pub fn real_files(folder: &Path) -> BTreeMap<String, Vec<u8>> {
+    let mut out = BTreeMap::new();
+    if let Ok(rd) = std::fs::read_dir(folder) {
+        for e in rd.flatten() {
+            if e.file_type().map(|t| t.is_file()).unwrap_or(false) {
+                if let Ok(b) = std::fs::read(e.path()) {
+                    out.insert(e.file_name().to_string_lossy().to_string(), b);
+                }
+            }
+        }
+    }
+    out
 }
 
 /// Installs `disk` as the I/O hook of the current thread for the duration of `f`.
